@@ -31,4 +31,14 @@ TABLE = {
    text="On the C01 machine family (plus an inheritance rendering where a subclass adds transitions to inherited states via event=) every edge is executed via send(), the event method, the items of sm.events and sm.allowed_events, bind_events_to triggers and MachineMixin(bind_events_as_methods); every style must agree with the reference (hence with each other) on result, exception, trace and stored state; allowed_events (ordered, unique) and events are compared in every visited state. Every attribute name of the machine, every state id, '', '__initial__' and lookalike strings are sent in every state of strict and tolerant, sync and async machines: TransitionNotAllowed/None, no callback, snapshot unchanged.",
    note="Trusted: mc/ref.py; the snapshot (model field, sm.__dict__ keys, listeners, queue, lock, callback counter) is what 'no other attribute was invoked' is judged by.",
    ref="DESIGN.md section 3 C13"),
+ "C10": dict(
+   technique="exhaustive enumeration of typed value alphabets x model shapes x state_field x start_value/stored value x operation sequences (events, valid and invalid external writes) on the real library; store invariants evaluated after every operation and inside every callback against a reference store",
+   text="For 8 typed value alphabets (str incl. '', int incl. 0/negatives, enum members, tuples, mixed, float/bool; two states share a display name), every initial-state position, 7 model shapes (default, plain, property-backed, class-level default, falsy via __len__, falsy via __bool__, MachineMixin), 3 state_field names, start_value unset/each value/unmapped, model pre-loaded with each value, sync rtc/non-rtc and async: every single operation (and operation pairs on the core shapes) from events, writes through sm.current_state_value, sm.current_state (instance and class State) and setattr(model), and invalid writes; after each, and inside each callback, model field (value and type), current_state, current_state_value, exactly-one is_active and model identity are checked.",
+   note="Trusted: reference store in mc/ref.py. State values inside one machine are pairwise unequal.",
+   ref="DESIGN.md section 3 C10"),
+ "C11": dict(
+   technique="exhaustive history enumeration (length <=3 quick / <=4 thorough) over {events, activate_initial_state(), re-construction over the same model with/without start_value} x stored value x start_value x initial-enter send rules x 5 engine configs on the real library, compared with a reference activation log",
+   text="Every history is executed on the real engines and compared with the reference: exactly one enter group of the start state under __initial__ iff the model holds no state, otherwise no callback at all and the stored value (incl. falsy 0 and '') untouched; re-activation is a no-op; a machine re-constructed over the same model after any history continues exactly like its predecessor; on the async engine activation precedes the first event's first callback whether or not activate_initial_state() is called explicitly.",
+   note="Trusted: mc/ref.py activation semantics. The same generated class is reused across all start_value/stored combinations inside a worker, so class-level caching of per-instance data is exposed.",
+   ref="DESIGN.md section 3 C11"),
 }
